@@ -112,8 +112,8 @@ Lemma inv_fresh s tr (d : desc) p o :
   t_step (marks_of tr) o = mkT p p [p] (pers_of tr) p [] -> good (file s) tr o -> pers_of tr <= p ->
   Inv (fresh_worker s d (persisted s)) (tr ++ [o]).
 Proof.
-  intros I Hp Hid Hl Hle Hm Hg Hpp. destruct I.
-  constructor; cbn; rewrite ?Hp; unfold hpos_of, conf_of, ends_of, pers_of; rewrite ?marks_snoc, ?Hm; cbn;
+  intros I Hp Hid Hl Hle Hm Hg Hpp. destruct I. unfold eff_pers in *.
+  constructor; unfold eff_pers; cbn; rewrite ?Hp; unfold hpos_of, conf_of, ends_of, pers_of; rewrite ?marks_snoc, ?Hm; cbn;
     try reflexivity; try lia; try assumption; try tauto.
   - constructor.
   - split; [lia|reflexivity].
@@ -178,7 +178,8 @@ Proof.
       * destruct (until_eof s); cbn [fst snd].
         -- replace (tr ++ [OSleep false; OExit]) with ((tr ++ [OSleep false]) ++ [OExit]) by (rewrite <- app_assoc; reflexivity).
            apply inv_neutral; [|reflexivity|exact Logic.I]. apply inv_done.
-           apply inv_neutral; [exact I0|reflexivity|exact Logic.I].
+           ++ apply inv_neutral; [exact I0|reflexivity|exact Logic.I].
+           ++ unfold conf_of. rewrite marks_snoc. cbn. unfold phase_inv in i_ph0. rewrite P in i_ph0. tauto.
         -- apply inv_neutral; [exact I0|reflexivity|exact Logic.I].
       * cbn [fst snd]. rewrite app_nil_r. constructor; cbn; rewrite ?RC; try assumption.
         unfold phase_inv in *. cbn. rewrite P in i_ph0. destruct i_ph0 as [A1 A2]. repeat split; try assumption.
@@ -219,7 +220,7 @@ Proof.
     { rewrite marks_app. destruct (eof && until_eof s); reflexivity. }
     constructor; cbn; try assumption; unfold hpos_of, conf_of, ends_of, pers_of in *; rewrite ?MK; fin.
     + split; [exact A3|lia].
-    + unfold phase_inv. cbn. destruct (eof && until_eof s); [exact Logic.I|]. split; assumption.
+    + unfold phase_inv. cbn. destruct (eof && until_eof s); [exact A2|]. split; assumption.
     + apply all_splits_app; [assumption|]. intros t1 o t2 Eq.
       destruct t1 as [|x t1].
       * cbn in Eq. injection Eq as <- _. cbn. rewrite app_nil_r. unfold conf_of. symmetry. exact A2.
@@ -227,7 +228,7 @@ Proof.
         destruct t1 as [|y t1]; [injection Eq as <- _; exact Logic.I|destruct t1; discriminate].
   - (* EPersist *)
     cbn [fst snd]. destruct i_ends0 as [E1 E2].
-    constructor; cbn; try assumption; unfold hpos_of, conf_of, ends_of, pers_of in *; rewrite ?marks_snoc; cbn; try assumption; try lia.
+    constructor; unfold eff_pers; cbn; rewrite ?i_did0, ?Nat.eqb_refl; try assumption; unfold hpos_of, conf_of, ends_of, pers_of in *; rewrite ?marks_snoc; cbn; try assumption; try lia.
     + intros d Hd. injection Hd as <-. repeat split; try assumption. rewrite i_doff0.
       rewrite <- i_wf0. lia.
     + split; assumption.
@@ -237,22 +238,27 @@ Proof.
   - (* EExit *)
     destruct (stopping s); cbn [fst snd]; [|rewrite app_nil_r; exact I0].
     destruct (ph s) eqn:P; cbn [fst snd]; try (rewrite app_nil_r; exact I0);
-      (apply inv_neutral; [apply inv_done; exact I0|reflexivity|exact Logic.I]).
+      (apply inv_neutral; [apply inv_done; [exact I0|unfold phase_inv in i_ph0; rewrite P in i_ph0; unfold conf_of; tauto]|reflexivity|exact Logic.I]).
   - (* ERestart *)
     destruct i_ends0 as [E1 E2].
-    destruct (persisted s) as [d0|] eqn:PE.
+    destruct (eff_pers s) as [d0|] eqn:PE.
     + destruct (i_pers0 d0 eq_refl) as (A1 & A2 & A3).
-      rewrite (merge_kept d0 (fid s) (length (file s)) A1 A2 A3). cbn [fst snd d_off].
-      rewrite <- PE.
+      assert (PS : persisted s = Some d0).
+      { unfold eff_pers in PE. destruct (persisted s) as [d1|]; [|discriminate].
+        destruct (d_id d1 =? fid s); [injection PE as ->; reflexivity|discriminate]. }
+      rewrite PS at 1 2. rewrite (merge_kept d0 (fid s) (length (file s)) A1 A2 A3). cbn [fst snd d_off].
       assert (PP : pers_of tr = d_off d0) by exact i_pm0.
       apply (inv_fresh s tr (mkDesc (fid s) (d_off d0) (length (file s))) (d_off d0) (ORestart (d_off d0)) I0); cbn; fin;
         try (unfold conf_of; split; [symmetry; exact PP|]; unfold pers_of in *; lia).
-    + cbn [merge_desc fst snd d_off]. rewrite <- PE.
-      assert (PP : pers_of tr = 0) by exact i_pm0.
+    + assert (PP : pers_of tr = 0) by exact i_pm0.
+      assert (MD : merge_desc (persisted s) (fid s) (length (file s)) = (mkDesc (fid s) 0 (length (file s)), false)).
+      { unfold eff_pers in PE. unfold merge_desc. destruct (persisted s) as [d1|]; [|reflexivity].
+        destruct (d_id d1 =? fid s); [discriminate|reflexivity]. }
+      rewrite MD. cbn [fst snd d_off].
       apply (inv_fresh s tr (mkDesc (fid s) 0 (length (file s))) 0 (ORestart 0) I0); cbn; fin;
         try (split; [symmetry; exact PP|lia]).
   - (* EReplace *)
-    exfalso. exact (NR same_id content eq_refl).
+    exfalso. exact (NR id content eq_refl).
   - (* ESync *)
     assert (OL : d_off (dsc s) <= length (file s)).
     { rewrite i_doff0, <- i_wf0. lia. }
@@ -278,6 +284,247 @@ Proof.
     pose proof (inv_step s tr e I N1) as I1. destruct (step s e) as [s1 o1]. cbn [fst snd] in I1.
     pose proof (IH s1 (tr ++ o1) I1 N2) as I2. destruct (run s1 evs) as [s2 o2]. cbn [fst snd] in *.
     rewrite app_assoc. exact I2.
+Qed.
+
+(* ---------- read-offs: runs from a start state ---------- *)
+Section From.
+Variable s0 : st.
+Hypothesis S0 : start_state s0.
+
+Definition fin (evs : list ev) : st := fst (run s0 evs).
+Definition trc (evs : list ev) : list obs := snd (run s0 evs).
+
+Lemma inv_all evs : no_replace evs -> Inv (fin evs) (trc evs).
+Proof. intros NR. exact (inv_run s0 [] evs (inv_start s0 S0) NR). Qed.
+
+Lemma hand_split evs t1 recs t2 : no_replace evs -> trc evs = t1 ++ OHand recs :: t2 ->
+  recs <> [] /\ Forall (good_rec B) recs /\
+  concat recs = seg (file (fin evs)) (hpos_of t1) (length (concat recs)).
+Proof. intros NR H. exact (i_obs _ _ (inv_all evs NR) t1 _ t2 H). Qed.
+
+Lemma offset_split evs t1 off t2 : no_replace evs -> trc evs = t1 ++ OOffset off :: t2 -> off = conf_of t1.
+Proof. intros NR H. exact (i_obs _ _ (inv_all evs NR) t1 _ t2 H). Qed.
+
+Lemma persisted_split evs t1 off lss t2 : no_replace evs -> trc evs = t1 ++ OPersisted off lss :: t2 ->
+  In off (ends_of t1) /\ off <= conf_of t1.
+Proof. intros NR H. exact (i_obs _ _ (inv_all evs NR) t1 _ t2 H). Qed.
+
+Lemma restart_split evs t1 p t2 : no_replace evs -> trc evs = t1 ++ ORestart p :: t2 ->
+  p = pers_of t1 /\ p <= conf_of t1.
+Proof. intros NR H. exact (i_obs _ _ (inv_all evs NR) t1 _ t2 H). Qed.
+
+Lemma fresh_split evs t1 p t2 : no_replace evs -> trc evs = t1 ++ OFresh p :: t2 ->
+  In p (ends_of t1) /\ p <= conf_of t1.
+Proof. intros NR H. exact (i_obs _ _ (inv_all evs NR) t1 _ t2 H). Qed.
+
+Lemma other_never evs n : no_replace evs -> ~ In (OOther n) (trc evs).
+Proof.
+  intros NR H. apply in_split in H as (t1 & t2 & H). exact (i_obs _ _ (inv_all evs NR) t1 _ t2 H).
+Qed.
+
+(* what the consumer got since the current run began is exactly the file from where that run began *)
+Lemma run_segment evs : no_replace evs ->
+  let m := marks_of (trc evs) in
+  t_base m + length (t_acc m) = t_hpos m /\ t_acc m = seg (file (fin evs)) (t_base m) (length (t_acc m)).
+Proof. intros NR. exact (i_acc _ _ (inv_all evs NR)). Qed.
+
+(* every byte of the file is in exactly one place: confirmed, in the current batch, in the partial
+   line, or not read yet *)
+Lemma accounting evs : no_replace evs -> let s := fin evs in
+  file s = firstn (woff s) (file s) ++ concat (recs s) ++ buf s ++ skipn (rpos s) (file s) /\
+  Forall (good_rec B) (recs s) /\ ~ In nl (buf s) /\ rpos s <= length (file s).
+Proof.
+  intros NR s. pose proof (inv_all evs NR) as I. fold s in I. destruct I.
+  rewrite i_wf0 in *. repeat split; try assumption.
+  pose proof (split4 _ (file s) (woff s) (length (concat (recs s))) (length (buf s))) as E.
+  rewrite i_off0 in E. rewrite <- i_rp0 in E. rewrite <- i_recs0, <- i_buf0 in E. exact E.
+Qed.
+
+(* when the worker finds nothing to send at EOF (the 1 s sleep) the whole file has been handed over and confirmed *)
+Lemma idle_complete evs o : no_replace evs -> let s := fin evs in
+  ph s = PRead -> snd (step s ERead) = OSleep false :: o ->
+  woff s = length (file s) /\ hpos_of (trc evs) = length (file s) /\ conf_of (trc evs) = length (file s).
+Proof.
+  intros NR s P H. pose proof (inv_all evs NR) as I. fold s in I. destruct I.
+  unfold phase_inv in i_ph0. rewrite P in i_ph0. destruct i_ph0 as [A1 A2].
+  cbn [step] in H. rewrite P in H.
+  destruct (read_line_turn B (buf s) (skipn (rpos s) (wfile s))) as [n r] eqn:R.
+  destruct r as [line| |b']; cbn in H; try discriminate.
+  - destruct (read_line_turn_eof _ _ _ _ R) as [Eb Eu].
+    destruct (recs s) eqn:RC; [|discriminate].
+    assert (L : length (skipn (rpos s) (wfile s)) = 0) by (rewrite Eu; reflexivity).
+    rewrite skipn_length in L. rewrite Eb in i_rp0. cbn in i_rp0, i_off0.
+    unfold hpos_of, conf_of. rewrite i_wf0 in *. lia.
+Qed.
+
+(* when the worker sleeps inside readLine (EOF within a line) everything has been read; what has not been
+   handed over is the current batch and the partial line - and nothing but the partial line if the batch is empty *)
+Lemma partial_sleep evs : no_replace evs -> let s := fin evs in let s' := fst (step s ERead) in
+  ph s = PRead -> snd (step s ERead) = [OSleep true] ->
+  rpos s' = length (file s') /\ buf s' <> [] /\ ~ In nl (buf s') /\
+  file s' = firstn (woff s') (file s') ++ concat (recs s') ++ buf s' /\
+  hpos_of (trc evs) = woff s' /\
+  (recs s' = [] -> hpos_of (trc evs) + length (buf s') = length (file s')).
+Proof.
+  intros NR s s' P H. pose proof (inv_all evs NR) as I. fold s in I.
+  assert (NE : forall b c, ERead <> EReplace b c) by discriminate.
+  pose proof (inv_step s (trc evs) ERead I NE) as I'. fold s' in I'.
+  pose proof (i_ph _ _ I) as J. unfold phase_inv in J. rewrite P in J. destruct J as [A1 A2].
+  subst s'. cbn [step] in *. rewrite P in *.
+  destruct (read_line_turn B (buf s) (skipn (rpos s) (wfile s))) as [n r] eqn:R.
+  destruct r as [line| |b']; cbn in H; try discriminate.
+  - destruct (recs s); [destruct (until_eof s)|]; discriminate.
+  - destruct (read_line_turn_sleep _ _ _ _ _ R) as (S1 & S2 & S3 & S4).
+    cbn [fst snd] in *. destruct I'. cbn in *.
+    assert (RL : rpos s + n = length (file s)).
+    { rewrite S2, skipn_length. rewrite i_wf0 in *. lia. }
+    assert (F : file s = firstn (woff s) (file s) ++ concat (recs s) ++ b').
+    { rewrite i_wf0 in *.
+      pose proof (split4 _ (file s) (woff s) (length (concat (recs s))) (length b')) as E.
+      rewrite i_off0 in E. rewrite <- i_recs0, <- i_buf0 in E.
+      rewrite skipn_all2 in E by lia. rewrite app_nil_r in E. exact E. }
+    repeat split; try assumption.
+    + intros RC. rewrite RC in *. cbn in *. unfold hpos_of. lia.
+Qed.
+
+(* a save at any moment except between a confirmation and the worker's setOffset, followed by a
+   restart, resumes exactly at the end of the last confirmed event *)
+Lemma graceful evs : no_replace evs -> let s := fin evs in (forall e, ph s <> PConf e) ->
+  let c := conf_of (trc evs) in
+  snd (run s [EPersist; ERestart]) = [OPersisted c (d_lss (dsc s)); ORestart c] /\
+  woff (fst (run s [EPersist; ERestart])) = c.
+Proof.
+  intros NR s NC c. pose proof (inv_all evs NR) as I. fold s in I. destruct I.
+  assert (C : conf_of (trc evs) = woff s).
+  { unfold phase_inv in i_ph0. unfold conf_of. destruct (ph s) eqn:P; try tauto. exfalso. exact (NC eof eq_refl). }
+  assert (OL : d_off (dsc s) <= length (file s)) by (rewrite i_doff0, <- i_wf0; lia).
+  cbn [run step]. cbn [persisted fid file].
+  rewrite (merge_kept (dsc s) (fid s) (length (file s)) i_did0 i_lss0 OL). cbn.
+  subst c. rewrite C, i_doff0. split; reflexivity.
+Qed.
+
+End From.
+
+(* every member of ends_of is where the current run began or the end of an event whose Confirm() returned true *)
+Lemma ends_spec tr x : In x (ends_of tr) ->
+  x = t_base (marks_of tr) \/ exists t1 t2, tr = t1 ++ OConf true :: t2 /\ x = hpos_of t1.
+Proof.
+  revert x. induction tr as [|o tr IH] using rev_ind; intros x H.
+  - cbn in H. destruct H as [<-|[]]. left. reflexivity.
+  - unfold ends_of in *. rewrite marks_snoc in *.
+    assert (ext : (exists t1 t2, tr = t1 ++ OConf true :: t2 /\ x = hpos_of t1) ->
+                  exists t1 t2, tr ++ [o] = t1 ++ OConf true :: t2 /\ x = hpos_of t1).
+    { intros (t1 & t2 & E & X). exists t1, (t2 ++ [o]). split; [|exact X]. rewrite E, <- app_assoc. reflexivity. }
+    destruct o; cbn in *; try (destruct (IH x H) as [L|R]; [left; exact L|right; exact (ext R)]).
+    + destruct ok; cbn in *.
+      * destruct H as [<-|H]; [right; exists tr, []; split; reflexivity|].
+        destruct (IH x H) as [L|R]; [left; exact L|right; exact (ext R)].
+      * destruct (IH x H) as [L|R]; [left; exact L|right; exact (ext R)].
+    + destruct H as [<-|[]]. left. reflexivity.
+    + destruct H as [<-|[]]. left. reflexivity.
+Qed.
+
+(* ---------- rotation ---------- *)
+Lemma merge_new_id od id size : d_id od <> id -> merge_desc (Some od) id size = (mkDesc id 0 size, false).
+Proof. intros H. unfold merge_desc. apply Nat.eqb_neq in H. rewrite H. reflexivity. Qed.
+
+Lemma merge_shrunk od id size : d_id od = id -> size < d_lss od \/ size < d_off od ->
+  merge_desc (Some od) id size = (mkDesc id 0 size, false).
+Proof.
+  intros H1 H2. unfold merge_desc. rewrite H1, Nat.eqb_refl.
+  destruct (Nat.leb (d_lss od) size) eqn:E1; destruct (Nat.leb (d_off od) size) eqn:E2; cbn; try reflexivity.
+  apply Nat.leb_le in E1. apply Nat.leb_le in E2. lia.
+Qed.
+
+(* a replaced file with a NEW identity (one neither the live nor the saved descriptor carries), noticed at
+   a restart or by a sync of the running scanner, is read by a new worker from offset 0 - and the scanner is
+   again in a start state, so every statement about runs from a start state holds for the new file *)
+Lemma rotate_new s0 evs id c : start_state s0 -> no_replace evs -> let s := fin s0 evs in
+  id <> fid s -> (forall d, persisted s = Some d -> d_id d <> id) ->
+  (let r := run s [EReplace id c; ERestart] in snd r = [ORestart 0] /\ start_state (fst r) /\ file (fst r) = c) /\
+  (let r := run s [EReplace id c; ESync] in snd r = [OFresh 0] /\ start_state (fst r) /\ file (fst r) = c).
+Proof.
+  intros S0 NR s NI NP. pose proof (inv_all s0 S0 evs NR) as I. fold s in I. destruct I.
+  split.
+  - cbn [run step]. cbn [persisted fid file].
+    assert (MD : merge_desc (persisted s) id (length c) = (mkDesc id 0 (length c), false)).
+    { destruct (persisted s) as [d|] eqn:PE; [|reflexivity]. apply merge_new_id. apply NP. reflexivity. }
+    rewrite MD. cbn. split; [reflexivity|]. split; [|reflexivity].
+    unfold start_state, eff_pers. cbn. repeat split; try reflexivity; try lia.
+    destruct (persisted s) as [d|] eqn:PE; [|reflexivity].
+    specialize (NP d eq_refl). apply Nat.eqb_neq in NP. rewrite NP. reflexivity.
+  - cbn [run step]. cbn [dsc fid file].
+    rewrite merge_new_id by (rewrite i_did0; auto).
+    rewrite i_did0. replace (fid s =? id) with false by (symmetry; apply Nat.eqb_neq; auto).
+    cbn. split; [reflexivity|]. split; [|reflexivity].
+    unfold start_state, eff_pers. cbn. repeat split; try reflexivity; try lia.
+    destruct (persisted s) as [d|] eqn:PE; [|reflexivity].
+    specialize (NP d eq_refl). apply Nat.eqb_neq in NP. rewrite NP. reflexivity.
+Qed.
+
+(* an identity the saved descriptor carries, but the file is shorter than what had been read or seen:
+   read from offset 0 at the restart *)
+Lemma rotate_shrunk s0 evs id c d : start_state s0 -> no_replace evs -> let s := fin s0 evs in
+  persisted s = Some d -> length c < d_lss d \/ length c < d_off d ->
+  let r := run s [EReplace id c; ERestart] in
+  snd r = [ORestart 0] /\ wfile (fst r) = c /\ rpos (fst r) = 0 /\ woff (fst r) = 0 /\ ph (fst r) = PRead.
+Proof.
+  intros S0 NR s PE SH. cbn [run step]. cbn [persisted fid file]. rewrite PE.
+  destruct (Nat.eq_dec (d_id d) id) as [E|E].
+  - rewrite (merge_shrunk d id (length c) E SH). cbn. repeat split; reflexivity.
+  - rewrite (merge_new_id d id (length c) E). cbn. repeat split; reflexivity.
+Qed.
+
+(* ---------- the hand-over stream of a run without restarts is a prefix of the file ---------- *)
+Lemma step_start_obs s e p : In (ORestart p) (snd (step s e)) \/ In (OFresh p) (snd (step s e)) -> e = ERestart \/ e = ESync.
+Proof.
+  destruct e; cbn; try tauto;
+    repeat match goal with |- context [match ?x with _ => _ end] => destruct x; cbn end;
+    intros [H|H]; try tauto; repeat (destruct H as [H|H]; try discriminate; try tauto).
+Qed.
+
+Lemma run_start_obs s evs p : In (ORestart p) (snd (run s evs)) \/ In (OFresh p) (snd (run s evs)) ->
+  In ERestart evs \/ In ESync evs.
+Proof.
+  revert s. induction evs as [|e evs IH]; intros s; cbn; [tauto|].
+  pose proof (step_start_obs s e p) as S. destruct (step s e) as [s1 o1]. specialize (IH s1).
+  destruct (run s1 evs) as [s2 o2]. cbn in *.
+  intros [H|H]; apply in_app_or in H as [H|H].
+  - destruct S as [->| ->]; auto.
+  - destruct IH as [?|?]; auto.
+  - destruct S as [->| ->]; auto.
+  - destruct IH as [?|?]; auto.
+Qed.
+
+Lemma base_zero tr : (forall p, ~ In (ORestart p) tr /\ ~ In (OFresh p) tr) -> t_base (marks_of tr) = 0.
+Proof.
+  induction tr as [|o tr IH] using rev_ind; intros H; [reflexivity|].
+  rewrite marks_snoc.
+  assert (H' : forall p, ~ In (ORestart p) tr /\ ~ In (OFresh p) tr).
+  { intros p. destruct (H p) as [A1 A2]. split; intros F; [apply A1|apply A2]; apply in_or_app; left; exact F. }
+  specialize (IH H'). destruct o; cbn; try exact IH.
+  - destruct ok; exact IH.
+  - exfalso. destruct (H off) as [A _]. apply A. apply in_or_app. right. left. reflexivity.
+  - exfalso. destruct (H off) as [_ A]. apply A. apply in_or_app. right. left. reflexivity.
+Qed.
+
+Lemma prefix_run s0 evs : start_state s0 -> no_replace evs -> ~ In ERestart evs -> ~ In ESync evs ->
+  t_acc (marks_of (trc s0 evs)) = firstn (hpos_of (trc s0 evs)) (file (fin s0 evs)).
+Proof.
+  intros S0 NR N1 N2. destruct (run_segment s0 S0 evs NR) as [A1 A2].
+  assert (Z : t_base (marks_of (trc s0 evs)) = 0).
+  { apply base_zero. intros p. split; intros F; destruct (run_start_obs s0 evs p); tauto. }
+  rewrite Z in *. cbn in A1. unfold hpos_of. rewrite <- A1. exact A2.
+Qed.
+
+(* the unit the correspondence check schedules (run_reads) is a run of single ReadSlice turns *)
+Lemma run_reads_is_run fuel s : exists n, run_reads B rpe fuel s = run s (repeat ERead n).
+Proof.
+  revert s. induction fuel as [|f IH]; intros s; [exists 0; reflexivity|].
+  cbn [run_reads]. destruct (ph s) eqn:P; try (exists 0; reflexivity).
+  destruct (step s ERead) as [s1 o1] eqn:S1. destruct (sleeps o1).
+  - exists 1. cbn [repeat run]. rewrite S1. cbn. rewrite app_nil_r. reflexivity.
+  - destruct (IH s1) as [n E]. exists (S n). cbn [repeat run]. rewrite S1, E. reflexivity.
 Qed.
 
 End ScP.
